@@ -27,6 +27,7 @@ LEVEL_TEXT = (
     "over a 6/5-symbol alphabet up to the tier's length (quick: patterns <= 4, strings <= 4; thorough: patterns <= 6, strings <= 5)."
 )
 LEVEL_NOTE = "Trusts R-GLOB (four string predicates), Python's re for regex exclusions, and the unfiltered scan as the baseline of the metamorphic relation."
+LEVEL_TEXT += ' Excluded files that cannot be parsed (Python 2, template text, undecodable bytes) must leave the scan equal to the tree without them; conversion strings contain an upper-case letter. Extra shards scan random projects (a quarter of them wide and deep) under independently drawn options - file exclusions, level limit, kept externals with external exclusions, module_path below the root, module-object entry point - judged by the same deciding steps.'
 RULE = (
     "an evaluation = one filtered scan compared with its unfiltered twin, or one (pattern, subject string) conversion comparison; non-trivial scan = "
     "the patterns exclude at least one but not all modules; distinct = distinct (tree digest, pattern tuple) / distinct (pattern, string) pairs"
